@@ -1,6 +1,7 @@
 // c15_q.cpp - composite printing: Print/JSON/XML/YAML/operator<< of the selected quantity types (and,
 // with -DVF_C15_CORE, of the 4 vector/tensor classes) consist of exactly the strings PhQ::Print(c_i)
 // in declared component order plus the unit abbreviation; JSON is valid JSON with those fields.
+#include <iomanip>
 #include <sstream>
 
 #include "probe.hpp"
@@ -244,6 +245,33 @@ static void check_forms(const std::string& name, const std::string& form, const 
   if (streamed && *streamed != p) show("stream-differs-from-Print", *streamed);
 }
 
+// "streaming equals printing" in EVERY stream state, not only a fresh stream: field width with either adjustment and a fill
+// character, floating-point flags and precision left over from earlier output, two objects in one statement. The same
+// statement with x.Print() in place of x must give the same characters and leave the stream in the same state.
+template <class X>
+static void check_stream_states(const std::string& name, const X& x) {
+  const std::string printed = x.Print();
+  for (int st = 0; st < 6; st++) {
+    std::ostringstream a, b;
+    auto prepare = [&](std::ostringstream& o) {
+      if (st == 1) o << std::setw((int)printed.size() + 7) << std::setfill('*');
+      if (st == 2) o << std::left << std::setw((int)printed.size() + 3) << std::setfill('.');
+      if (st == 3) o << std::scientific << std::setprecision(3) << std::showpos << std::uppercase;
+      if (st == 4) o << std::setw(2);
+      if (st == 5) o << std::internal << std::setw((int)printed.size() + 1) << std::hexfloat;
+    };
+    prepare(a);
+    prepare(b);
+    a << x << '|' << x << '|' << 1.5 << '|';
+    b << printed << '|' << printed << '|' << 1.5 << '|';
+    vf::stat("stream_state_checks");
+    if (a.str() != b.str() || a.width() != b.width() || a.flags() != b.flags() || a.precision() != b.precision()) {
+      vf::viol("stream-state|" + name + "|" + vf::TName<vf::num_t<X>>::value + "|state" + std::to_string(st),
+               "{\"type\":" + vf::jstr(name) + ",\"stream_state\":" + std::to_string(st) + ",\"streamed\":" + vf::jstr(a.str()) + ",\"printed_then_streamed\":" + vf::jstr(b.str()) + "}");
+      return;
+    }
+  }
+}
 #ifndef VF_C15_CORE
 struct F {
   template <template <class> class Q>
@@ -263,6 +291,7 @@ struct F {
       std::ostringstream os;
       os << q;
       const std::string st = os.str();
+      check_stream_states(name, q);
       if constexpr (vf::HasUnit<Q>::value) {
         using U = std::decay_t<decltype(Q::Unit())>;
         check_forms<Q, T, N>(name, "standard", q, c, std::string(PhQ::Abbreviation(Q::Unit())), true, q.Print(), q.JSON(), q.XML(), q.YAML(), &st);
@@ -292,6 +321,7 @@ void core(const char* name) {
     std::ostringstream os;
     os << v;
     const std::string st = os.str();
+    check_stream_states(name, v);
     check_forms<X, T, N>(name, "standard", v, vals.data(), "", false, v.Print(), v.JSON(), v.XML(), v.YAML(), &st);
   }
   vf::stat("type_instances");
